@@ -20,7 +20,20 @@ THEOREMS = ["Rtosc.Match.match_iff_spec", "Rtosc.Match.match_sound", "Rtosc.Matc
             "Rtosc.Match.types_sandwich", "Rtosc.Match.types_exact",
             "Rtosc.Match.enum_bound_strict", "Rtosc.Match.enum_bound_strict_msg",
             "Rtosc.Match.copies_agree", "Rtosc.Match.colon_address_counterexample",
-            "Rtosc.Match.args_overread_counterexample", "Rtosc.Match.path_eq_body"]
+            "Rtosc.Match.args_overread_counterexample", "Rtosc.Match.path_eq_body",
+            # proof extension: digit-run hypothesis weakened / removed, full completeness, leftmost reading
+            "Rtosc.Match.idxBounded_enumIdx", "Rtosc.Match.enumIdxBounded_iff_check",
+            "Rtosc.Match.enumIdxBounded_of_all_readings",
+            "Rtosc.Match.match_total_all", "Rtosc.Match.msg_total_all",
+            "Rtosc.Match.match_sound_enum", "Rtosc.Match.match_complete", "Rtosc.Match.match_iff_spec_enum",
+            "Rtosc.Match.match_sound_needs_enumIdx",
+            "Rtosc.Match.msg_sound_enum", "Rtosc.Match.msg_complete",
+            "Rtosc.Match.types_exact_enum", "Rtosc.Match.types_sandwich_enum",
+            "Rtosc.Match.leftmost_spells", "Rtosc.Match.leftmost_iff_spec", "Rtosc.Match.leftmost_unique",
+            "Rtosc.Match.match_leftmost_complete", "Rtosc.Match.match_iff_leftmost", "Rtosc.Match.k1_exact",
+            "Rtosc.Match.msg_iff_leftmost", "Rtosc.Match.msg_leftmost_complete",
+            "Rtosc.Match.enum_bound_leftmost", "Rtosc.Match.enum_bound_leftmost_msg",
+            "Rtosc.Match.enum_bound_strict_idx", "Rtosc.Match.enum_bound_needs_leftmost"]
 HARNESS = {"src": ["match.cpp"], "exclude": ["src/cpp/ports.cpp"], "deps": ["common.h"]}
 RULE = ("patterns are generated from the grammar: literal text over lower- AND upper-case letters, punctuation, the "
         "OSC-1.0 wildcard characters `? [ ] ! space , } -` (all literal in this language), any other byte but NUL # { * : "
@@ -42,15 +55,26 @@ RULE = ("patterns are generated from the grammar: literal text over lower- AND u
         "only 'they returned' is checked, no verdict is compared.  Non-trivial = the pattern is more than a plain "
         "literal; distinct = distinct op line")
 ASSUMPTIONS = ["patterns of the documented form (Pat.WF0): literal text without NUL # { * :, N < 2^31, alternatives without NUL , }",
-               "addresses and type strings are C strings; every digit run of the address (also one that is not at an "
-               "enumeration) is below 2^31 (IdxBounded; the statement bounds indices to 9 digits; beyond, atoi wraps: "
-               "theorem atoi_wraps; such addresses only run as U lines)",
-               "completeness (match_iff_spec, match_complete_partial, msg_complete_partial, the left half of "
-               "types_sandwich, types_exact) and enum_bound_strict(_msg) additionally assume prefix-free {} groups "
-               "(Pat.WF; known finding C05-K1: with prefix-related alternatives an address can have two readings and "
-               "the code takes the first); soundness (match_sound, msg_sound, match_total, msg_total) does not",
+               "addresses and type strings are C strings (a type string only where the pattern has a type part)",
+               "soundness (match_sound_enum, msg_sound_enum, the 'only if' halves of match_iff_spec_enum, types_exact_enum, "
+               "match_iff_leftmost, msg_iff_leftmost): the digit runs of the address that stand at enumerations of the "
+               "pattern are below 2^31 (EnumIdxBounded, decidable: enumIdxBounded_iff_check; the statement bounds indices "
+               "to 9 digits; beyond, atoi wraps and the hypothesis cannot be dropped: match_sound_needs_enumIdx, "
+               "atoi_wraps; such addresses only run as U lines).  Digit runs anywhere else in the address (literal text, "
+               "alternatives, behind a trailing '/') are unconstrained.  The theorems of the first round (match_sound, "
+               "msg_sound, match_iff_spec, types_exact, enum_bound_strict, ...) carry the stronger IdxBounded (every digit "
+               "run of the whole address; idxBounded_enumIdx) and are kept because C04/C09/C14 use them.  Completeness "
+               "(match_complete, msg_complete, match_leftmost_complete, msg_leftmost_complete) and memory safety "
+               "(match_total_all, msg_total_all) assume nothing about digit runs; enum_bound_leftmost / "
+               "enum_bound_strict_idx only that the one index in question is below 2^31",
+               "statements in terms of PathSpec (any reading of the address): completeness (match_complete, msg_complete, "
+               "match_iff_spec_enum, types_exact_enum, left half of types_sandwich_enum) and enum_bound_strict_idx "
+               "assume prefix-free {} groups (Pat.WF; known finding C05-K1: with prefix-related alternatives an address "
+               "can have two readings and the code takes the leftmost); the statements in terms of the "
+               "leftmost-alternative reading (match_iff_leftmost, msg_iff_leftmost, enum_bound_leftmost, k1_exact) and "
+               "soundness hold for every pattern of the documented form",
                "the message is laid out as rtosc_amessage does (address and ',types' NUL-padded to a multiple of four); "
-               "nothing is assumed about the buffer behind the padded type string (msg_total holds for rest = [])",
+               "nothing is assumed about the buffer behind the padded type string (msg_total_all holds for rest = [])",
                "the model mirrors dispatch.c and ports.cpp with fixes/C05-colon-address.patch and "
                "fixes/C05-args-overread.patch applied"]
 TRUSTED = ["hand-written model RtoscModel/Match/Path.lean of rtosc_match_number, rtosc_match_options, rtosc_match_path, "
@@ -62,21 +86,33 @@ TRUSTED = ["hand-written model RtoscModel/Match/Path.lean of rtosc_match_number,
            "path_end to a local; the model has one function for both, the harness calls both and the oracle checks both)",
            "message layout of rtosc_amessage for all-zero arguments (mkMsg/zeroArgSize, validated by the harness itself: it aborts on a size mismatch)"]
 LEVEL_TEXT = ("Lean theorems over the model of dispatch.c: for every pattern of the documented form (Pat.WF0) and every "
-              "address / message: rtosc_match_path and rtosc_match read nothing outside the pattern and the message "
-              "(match_total, msg_total: also for a message in a buffer of exactly its size) and are sound (match_sound, "
-              "msg_sound: an accepted address spells the pattern with every index < N and ends where the pattern's path "
-              "ends, an accepted type string equals or extends an alternative); for patterns whose {} groups are "
-              "prefix-free (Pat.WF) additionally completeness, i.e. rtosc_match_path accepts exactly the addresses the "
-              "statement describes (match_iff_spec), the type-string sandwich and the exact type-matcher behaviour "
-              "(types_sandwich, types_exact), and the array-safety corollary that no index >= N is accepted "
-              "(enum_bound_strict); equality of the three copies of the type matcher (copies_agree).  The model is "
+              "C-string address / message, whatever digit runs it holds: rtosc_match_path and rtosc_match read nothing "
+              "outside the pattern and the message (match_total_all, msg_total_all: also for a message in a buffer of "
+              "exactly its size).  With the digit runs that stand at enumerations of the pattern below 2^31 "
+              "(EnumIdxBounded) they are sound (match_sound_enum, msg_sound_enum: an accepted address spells the pattern "
+              "with every index < N and ends where the pattern's path ends, an accepted type string equals or extends an "
+              "alternative) and accept exactly the addresses / messages whose leftmost-alternative reading spells the "
+              "pattern (match_iff_leftmost, msg_iff_leftmost: at each {} group the first alternative, in pattern order, "
+              "that is a prefix of what is left of the address; the reading is unique: leftmost_unique), which states "
+              "precisely what the code does on the K1 class (k1_exact) and gives the array-safety corollary for every "
+              "pattern (enum_bound_leftmost: no index >= N behind the leftmost reading is accepted).  For patterns whose "
+              "{} groups are prefix-free (Pat.WF) the leftmost reading is the only one (leftmost_iff_spec), hence "
+              "completeness at full strength, without any hypothesis on digit runs: every address that spells the "
+              "pattern is accepted (match_complete) and every message whose address spells the pattern and whose type "
+              "string is one of the alternatives is accepted (msg_complete); rtosc_match_path accepts exactly the "
+              "addresses the statement describes (match_iff_spec_enum), the type-string sandwich and the exact "
+              "type-matcher behaviour (types_sandwich_enum, types_exact_enum), and no index >= N is accepted "
+              "(enum_bound_strict_idx); equality of the three copies of the type matcher (copies_agree).  The model is "
               "compared with the compiled code (ASan/UBSan, exact-size buffers) on well over 100000 generated (pattern, "
               "message) pairs per run plus an exhaustive small scope, and the statement is evaluated directly on the "
               "implementation's verdicts by an independent oracle")
-LEVEL_NOTE = ("partial with respect to the statement: completeness is proved only for prefix-free {} groups (the unchanged "
-              "code violates it otherwise: known finding C05-K1, match_complete_counterexample); the hand-written model "
-              "is tied to the code by differential execution only; the documented form is this project's reading of "
-              "doc/Guide.adoc ('?', '[', ']', upper case, ... are literal text)")
+LEVEL_NOTE = ("partial with respect to the statement: in the statement's own terms (an address matches when SOME reading "
+              "spells the pattern) completeness holds for prefix-free {} groups only (the unchanged code violates it "
+              "otherwise: known finding C05-K1, match_complete_counterexample; what it does instead is proved exactly: "
+              "match_iff_leftmost); soundness needs indices at enumerations below 2^31 (atoi wrap, "
+              "match_sound_needs_enumIdx); the hand-written model is tied to the code by differential execution only; "
+              "the documented form is this project's reading of doc/Guide.adoc ('?', '[', ']', upper case, ... are "
+              "literal text); C04/C09/C14 still use the first-round theorems with the stronger IdxBounded hypothesis")
 TECHNIQUE = "Lean 4 model + proofs; correspondence against ASan/UBSan build; independent spec oracle; exhaustive small scope"
 
 ALPH = b"abc012/:#{,"
